@@ -7,6 +7,7 @@ From Flocq Require IEEE754.PrimFloat.
 From VLib Require Import Codec Machine.
 From VModel Require Import RingHash.
 From VProof Require Import Flt_proofs RingHash_proofs.
+From Coq Require Import Permutation.
 Import ListNotations.
 Open Scope R_scope.
 
@@ -147,4 +148,267 @@ Lemma new_ring_perm_weights : forall mn mx l l', Permutation.Permutation l l' ->
 Proof.
   intros mn mx l l' H Hnd Hw. apply new_ring_perm; [exact H|exact Hnd|].
   apply weights_ok_nw_good, Hw.
+Qed.
+
+(* ================= the float64 counter loop in closed form ================= *)
+
+Lemma rnd_int : forall z, (Z.abs z < 2^53)%Z -> rnd (IZR z) = IZR z.
+Proof.
+  intros z Hz. unfold rnd. apply round_generic; [apply valid_rnd_N|].
+  apply (generic_format_FLT radix2 (3 - emax - prec) prec).
+  refine (FLT_spec _ _ _ _ (Float radix2 z 0) _ _ _).
+  - unfold F2R. cbn. lra.
+  - cbn. exact Hz.
+  - cbn. lia.
+Qed.
+
+Lemma FR_of_u63_exact : forall z, (0 <= z < 2^53)%Z -> FR (of_u63 z) (IZR z).
+Proof.
+  intros z Hz. unfold FR, of_u63. rewrite FP.of_int63_equiv.
+  assert (Ez : Uint63.to_Z (Uint63.of_Z z) = z).
+  { rewrite Uint63.of_Z_spec. apply Z.mod_small. change Uint63.wB with (2^63)%Z. lia. }
+  rewrite Ez.
+  generalize (binary_normalize_correct prec emax FP.Hprec FP.Hmax mode_NE z 0 false).
+  cbv zeta. replace (F2R (Float radix2 z 0)) with (IZR z) by (unfold F2R; cbn; lra).
+  change (round radix2 _ _ (IZR z)) with (rnd (IZR z)).
+  rewrite rnd_int by lia.
+  rewrite Rlt_bool_true.
+  - intros (H1 & H2 & H3). split; assumption.
+  - apply small_lt. rewrite <- abs_IZR. apply IZR_le. lia.
+Qed.
+
+Lemma FR_two52 : FR two52 (IZR (2^52)).
+Proof.
+  assert (H: Prim2SF two52 = S754_finite false 4503599627370496 0) by reflexivity.
+  pose proof (FR_const _ _ _ H) as F. cbn [bpow] in F. rewrite Rmult_1_r in F. exact F.
+Qed.
+
+(* currentHashes++ on an exactly represented integer below 2^52 *)
+Lemma FR_succ : forall cur c, FR cur (IZR c) -> (0 <= c < 2^52)%Z -> FR (cur + 1)%float (IZR (c + 1)).
+Proof.
+  intros cur c Hc Hb.
+  assert (E: rnd (IZR c + 1) = IZR (c + 1)).
+  { rewrite <- plus_IZR. apply rnd_int. lia. }
+  rewrite <- E. apply FR_add; [exact Hc|exact FR_one|].
+  rewrite E. apply small_lt. rewrite <- abs_IZR. apply IZR_le. lia.
+Qed.
+
+Definition zlenZ {A} (l : list A) : Z := zlen l.
+
+(* the inner loop leaves max(c, ceil(target)) and emits the difference *)
+Lemma inner_closed : forall k tgt t, FR tgt t -> t <= IZR (2^52) ->
+  forall tbl cur c cur' es, FR cur (IZR c) -> (0 <= c <= 2^52)%Z ->
+  inner k tbl cur tgt = Some (cur', es) ->
+  FR cur' (IZR (Z.max c (Zceil t))) /\ zlen es = (Z.max c (Zceil t) - c)%Z.
+Proof.
+  intros k tgt t Htgt Ht. induction tbl as [|h r IH]; intros cur c cur' es Hcur Hc Hin;
+    cbn [inner] in Hin; rewrite (FR_ltb cur tgt (IZR c) t Hcur Htgt) in Hin;
+    destruct (Rlt_bool_spec (IZR c) t) as [Hlt|Hge].
+  - discriminate.
+  - inversion Hin; subst. assert (Zceil t <= c)%Z by (apply Zceil_glb; exact Hge).
+    rewrite Z.max_l by lia. split; [exact Hcur|]. unfold zlen. cbn. lia.
+  - destruct (inner k r (cur + 1)%float tgt) as [[c1 es1]|] eqn:E; [|discriminate].
+    inversion Hin; subst.
+    assert (Hc52: (c < 2^52)%Z) by (apply lt_IZR; lra).
+    assert (Hcl: (c < Zceil t)%Z).
+    { apply lt_IZR. eapply Rlt_le_trans; [exact Hlt|apply Zceil_ub]. }
+    destruct (IH _ (c + 1)%Z _ _ (FR_succ _ _ Hcur ltac:(lia)) ltac:(lia) E) as [A B].
+    rewrite Z.max_r in A, B by lia. rewrite Z.max_r by lia.
+    split; [exact A|]. unfold zlen in *. cbn [length]. lia.
+  - inversion Hin; subst. assert (Zceil t <= c)%Z by (apply Zceil_glb; exact Hge).
+    rewrite Z.max_l by lia. split; [exact Hcur|]. unfold zlen. cbn. lia.
+Qed.
+
+Lemma Zceil_range : forall t, 0 <= t <= IZR (2^52) -> (0 <= Zceil t <= 2^52)%Z.
+Proof.
+  intros t [H0 H1]. split.
+  - rewrite <- (Zceil_IZR 0). apply Zceil_le. exact H0.
+  - rewrite <- (Zceil_IZR (2^52)). apply Zceil_le. exact H1.
+Qed.
+
+(* the whole accumulation: the counter ends at ceil(final float target) *)
+Lemma outer_closed : forall sc s eps cur tgt t cur' tgt' es,
+  FR cur (IZR (Zceil t)) -> FR tgt t -> 0 <= t <= IZR (2^52) ->
+  tgts_okb sc s eps tgt = true ->
+  outer sc s eps cur tgt = Some (cur', tgt', es) ->
+  exists t', FR tgt' t' /\ t <= t' <= IZR (2^52) /\ FR cur' (IZR (Zceil t')) /\
+             zlen es = (Zceil t' - Zceil t)%Z /\
+             tgt' = fold_left (fun a e => (a + sc * nwt s e)%float) eps tgt.
+Proof.
+  intros sc s eps. induction eps as [|e r IH]; intros cur tgt t cur' tgt' es Hcur Htgt Ht Hok Hout;
+    cbn [outer tgts_okb fold_left] in *.
+  - inversion Hout; subst. exists t. split; [exact Htgt|]. split; [lra|]. split; [exact Hcur|].
+    split; [unfold zlen; cbn; lia|reflexivity].
+  - apply andb_true_iff in Hok as [Hok Hrest]. apply andb_true_iff in Hok as [Hle1 Hle2].
+    set (tgt1 := (tgt + sc * nwt s e)%float) in *.
+    destruct (between_FR tgt tgt1 two52 _ _ Htgt FR_two52 Hle1 Hle2) as (t1 & Ht1 & Hb1).
+    destruct (inner (key e) (hs e) cur tgt1) as [[c1 es1]|] eqn:E1; [|discriminate].
+    destruct (outer sc s r c1 tgt1) as [[[c2 t2] es2]|] eqn:E2; [|discriminate].
+    inversion Hout; subst.
+    destruct (inner_closed _ _ _ Ht1 ltac:(lra) _ _ _ _ _ Hcur (Zceil_range t Ht) E1) as [A B].
+    assert (Hm: (Zceil t <= Zceil t1)%Z) by (apply Zceil_le; lra).
+    rewrite Z.max_r in A, B by lia.
+    destruct (IH _ _ t1 _ _ _ A Ht1 ltac:(lra) Hrest E2) as (t' & F' & Hb' & C' & L' & Efold).
+    exists t'. split; [exact F'|]. split; [lra|]. split; [exact C'|].
+    split; [|exact Efold]. unfold zlen in *. rewrite app_length. lia.
+Qed.
+
+(* The size of the float64 ring is ceil(final float target); hence it exceeds
+   max_ring_size exactly when the accumulated float target ends above float64(max) *)
+Lemma size_float : forall mn mx eps ring, (0 <= mx < 2^52)%Z ->
+  tgts_ok mn mx eps = true -> new_ring mn mx eps = Some ring ->
+  exists tn, FR (spec_final_target mn mx eps) tn /\ zlen ring = Zceil tn /\
+             (overshoot mn mx eps = false <-> (zlen ring <= mx)%Z).
+Proof.
+  intros mn mx eps ring Hmx Hok Hr. unfold new_ring, build_raw in Hr. unfold tgts_ok in Hok.
+  destruct (outer _ _ (sort_eps eps) 0%float 0%float) as [[[c t] es]|] eqn:E; [|discriminate].
+  inversion Hr; subst.
+  assert (H0: FR 0%float (IZR (Zceil 0))) by (rewrite Zceil_IZR; exact FR_zero).
+  assert (H52: 0 <= 0 <= IZR (2^52)) by (split; [lra|apply IZR_le; lia]).
+  destruct (outer_closed _ _ _ _ _ 0 _ _ _ H0 FR_zero H52 Hok E) as (tn & Ftn & Hb & _ & Hlen & Efold).
+  rewrite Zceil_IZR, Z.sub_0_r in Hlen.
+  assert (Hsz: zlen (sort_items es) = Zceil tn).
+  { rewrite <- Hlen. unfold zlen. f_equal. apply Permutation.Permutation_length, sort_items_perm. }
+  assert (Hft: spec_final_target mn mx eps = t) by (unfold spec_final_target, spec_scale; symmetry; exact Efold).
+  exists tn. rewrite Hft. split; [exact Ftn|]. split; [exact Hsz|].
+  unfold overshoot. rewrite Hft.
+  rewrite (FR_ltb _ _ _ _ (FR_of_u63_exact mx ltac:(lia)) Ftn). rewrite Hsz.
+  destruct (Rlt_bool_spec (IZR mx) tn) as [Hlt|Hge]; split; intros H; try discriminate; try reflexivity.
+  - exfalso. apply IZR_le in H. pose proof (Zceil_ub tn). lra.
+  - apply Zceil_glb. exact Hge.
+Qed.
+
+(* ================= the bridged clauses hold on every model trace ================= *)
+Local Open Scope Z_scope.
+
+Lemma decode_cfg_mx : forall w c, decode_cfg w = Some c -> 0 <= maxR c < 2^52.
+Proof.
+  intros w c H. unfold decode_cfg in H. destruct w as [|mn [|mx [|n r]]]; try discriminate.
+  destruct ((1 <=? mn) && (mn <=? max_ring) && (1 <=? mx) && (mx <=? max_ring) && (0 <=? n)) eqn:E;
+    [|discriminate].
+  destruct (take_eps (Z.to_nat n) r) as [l|]; [|discriminate]. inversion H; subst. cbn [maxR].
+  apply andb_true_iff in E as [E _]. apply andb_true_iff in E as [E E4]. apply andb_true_iff in E as [_ E3].
+  apply Z.leb_le in E3, E4. unfold max_ring in E4. lia.
+Qed.
+
+Lemma step_holds : forall c s cs pos op s' o, cfg_ok c -> 0 <= maxR c < 2^52 -> Inv s cs ->
+  step c s op = Some (s', o) ->
+  Inv s' (fst (cl_step c cs pos op o)) /\ walk_ok (snd (cl_step c cs pos op o)) = true.
+Proof.
+  intros c s cs pos op s' o Hc Hmx (Hring & Hidx & Hsorted & Hrange) Hstep.
+  destruct op as [|t r]; [discriminate|].
+  destruct (Z.eq_dec t 1) as [->|N1].
+  { (* build *)
+    cbn [step cl_step] in *. unfold cl_build.
+    destruct (select c r) as [eps|] eqn:Esel.
+    - destruct (tgts_ok (minR c) (maxR c) eps) eqn:Etg; [|discriminate].
+      destruct (new_ring (minR c) (maxR c) eps) as [ring|] eqn:Er; [|discriminate].
+      inversion Hstep; subst.
+      destruct (new_ring_inv _ _ _ _ Hc Esel Er) as [Hs' Hr'].
+      rewrite (ring_of_obs_ring_obs ring Hr'). cbn [fst snd].
+      split; [repeat split; assumption|].
+      assert (H4: (if overshoot (minR c) (maxR c) eps then true else zlen ring <=? maxR c) = true).
+      { destruct (overshoot (minR c) (maxR c) eps) eqn:Eov; [reflexivity|].
+        destruct (size_float _ _ _ _ Hmx Etg Er) as (tn & _ & _ & Hiff).
+        apply Z.leb_le. apply Hiff. exact Eov. }
+      unfold walk_ok. cbn [forallb fst snd]. rewrite H4. reflexivity.
+    - inversion Hstep; subst. cbn [fst snd]. split; [repeat split; assumption|reflexivity]. }
+  destruct (Z.eq_dec t 2) as [->|N2].
+  { (* ring.pick *)
+    destruct r as [|h [|? ?]]; try discriminate.
+    cbn [step cl_step] in *. rewrite Hring.
+    destruct (cur_ring s) as [|e0 r0] eqn:Ering.
+    - inversion Hstep; subst. cbn [fst snd]. split; [repeat split; try assumption; rewrite Ering; assumption|reflexivity].
+    - rewrite <- Ering in *. inversion Hstep; subst. cbn [fst snd].
+      split; [repeat split; assumption|].
+      assert (Hne: cur_ring s' <> []) by (rewrite Ering; discriminate).
+      rewrite <- (pick_idx_is_spec _ (u64 h) Hsorted Hne).
+      pose proof (pick_idx_range _ (u64 h) Hsorted Hne) as Hi.
+      rewrite u64_i64.
+      + cbn. rewrite !Z.eqb_refl. reflexivity.
+      + rewrite Forall_forall in Hrange. apply Hrange, znth_in, Hi. }
+  destruct (Z.eq_dec t 3) as [->|N3].
+  { (* Pick, request hash *)
+    destruct r as [|h ss]; try discriminate.
+    cbn [step cl_step] in *. rewrite Hring, Hidx.
+    destruct (cur_ring s) as [|e0 r0] eqn:Ering.
+    - inversion Hstep; subst. cbn [fst snd]. split; [repeat split; try assumption; rewrite Ering; assumption|reflexivity].
+    - rewrite <- Ering in *. inversion Hstep; subst. cbn [fst snd].
+      split; [repeat split; assumption|].
+      assert (Hne: cur_ring s' <> []) by (rewrite Ering; discriminate).
+      unfold walk_ok. cbn [forallb fst snd]. rewrite (cl_req_model _ _ _ Hsorted Hne).
+      rewrite orb_true_r. reflexivity. }
+  destruct (Z.eq_dec t 4) as [->|N4].
+  { (* Pick, random hash *)
+    destruct r as [|h ss]; try discriminate.
+    cbn [step cl_step] in *. rewrite Hring, Hidx.
+    destruct (cur_ring s) as [|e0 r0] eqn:Ering.
+    - inversion Hstep; subst. cbn [fst snd]. split; [repeat split; try assumption; rewrite Ering; assumption|reflexivity].
+    - rewrite <- Ering in *. inversion Hstep; subst. cbn [fst snd].
+      split; [repeat split; assumption|].
+      assert (Hne: cur_ring s' <> []) by (rewrite Ering; discriminate).
+      destruct (cl_rnd_model _ (sts_of c (cur_idx s') ss) (u64 h) Hsorted Hne) as [Ha Hb].
+      unfold walk_ok. cbn [forallb fst snd]. rewrite Ha, Hb, !orb_true_r. reflexivity. }
+  destruct (Z.eq_dec t 5) as [->|N5].
+  { (* Pick, hash source chosen by the code *)
+    destruct r as [|hdr [|xdsp [|xh [|mdp rest]]]]; try discriminate.
+    cbn [step cl_step] in *.
+    destruct (get_bytes rest) as [[vals [|hj [|rr ss]]]|]; try discriminate.
+    rewrite Hring, Hidx.
+    destruct (cur_ring s) as [|e0 r0] eqn:Ering.
+    - inversion Hstep; subst. cbn [fst snd]. split; [repeat split; try assumption; rewrite Ering; assumption|reflexivity].
+    - rewrite <- Ering in *. inversion Hstep; subst. cbn [fst snd].
+      split; [repeat split; assumption|].
+      assert (Hne: cur_ring s' <> []) by (rewrite Ering; discriminate).
+      unfold walk_ok. cbn [forallb fst snd walk_clause].
+      destruct (hash_source hdr xdsp xh mdp (length vals) hj rr) as [|h|h]; cbn [pick_src].
+      + reflexivity.
+      + rewrite (cl_req_model _ _ _ Hsorted Hne). reflexivity.
+      + destruct (cl_rnd_model _ (sts_of c (cur_idx s') ss) h Hsorted Hne) as [Ha Hb].
+        rewrite Ha, Hb. reflexivity. }
+  exfalso. cbn [step] in Hstep.
+  destruct t as [|p|p]; try discriminate Hstep.
+  destruct p as [[[p|p|]|[p|p|]|]|[[p|p|]|[p|p|]|]|]; try discriminate Hstep; congruence.
+Qed.
+
+Lemma run_from_holds : forall c, cfg_ok c -> 0 <= maxR c < 2^52 -> forall ops s cs pos obs, Inv s cs ->
+  run_from c s ops = Some obs -> walk_ok (clauses_from c cs pos ops obs) = true.
+Proof.
+  intros c Hc Hmx. induction ops as [|op ops IH]; intros s cs pos obs HI Hrun; cbn [run_from] in Hrun.
+  - inversion Hrun; subst. reflexivity.
+  - destruct (step c s op) as [[s' o]|] eqn:Es; [|discriminate].
+    destruct (run_from c s' ops) as [os|] eqn:Er; [|discriminate].
+    inversion Hrun; subst. cbn [clauses_from].
+    destruct (step_holds c s cs pos op s' o Hc Hmx HI Es) as [HI' Hcl].
+    destruct (cl_step c cs pos op o) as [cs' cl]. cbn [fst snd] in *.
+    unfold walk_ok in *. rewrite forallb_app, Hcl. cbn [andb].
+    eapply IH; eassumption.
+Qed.
+
+Theorem model_trace_holds : forall cfg ops obs,
+  run cfg ops = Some obs -> holds_b cfg ops obs = true.
+Proof.
+  intros cfg ops obs H. unfold run in H. unfold holds_b, clauses.
+  destruct (decode_cfg cfg) as [c|] eqn:Ec; [|discriminate].
+  apply (run_from_holds c (decode_cfg_ok _ _ Ec) (decode_cfg_mx _ _ Ec) ops (mkst [] []) (mkcs [] [] []) 0 obs); [|exact H].
+  repeat split; cbn; [|apply Forall_nil].
+  intros a b Hab Hb. unfold zlen in Hb. cbn in Hb. lia.
+Qed.
+
+
+(* where picker.Pick takes the request hash from *)
+Lemma hash_source_cases : forall hdr xdsp xh mdp n hj r,
+  (hdr = 0 -> xdsp = 0 -> hash_source hdr xdsp xh mdp n hj r = SrcErr) /\
+  (hdr = 0 -> xdsp <> 0 -> hash_source hdr xdsp xh mdp n hj r = SrcReq (u64 xh)) /\
+  (hdr <> 0 -> mdp = 0 \/ n = 0%nat -> hash_source hdr xdsp xh mdp n hj r = SrcRnd (u64 r)) /\
+  (hdr <> 0 -> mdp <> 0 -> n <> 0%nat -> hash_source hdr xdsp xh mdp n hj r = SrcReq (u64 hj)).
+Proof.
+  intros hdr xdsp xh mdp n hj r. unfold hash_source. repeat split.
+  - intros -> ->. reflexivity.
+  - intros -> H. cbn. destruct (Z.eqb_spec xdsp 0); [contradiction|reflexivity].
+  - intros H [-> | ->]; destruct (Z.eqb_spec hdr 0); try contradiction; cbn.
+    + reflexivity.
+    + rewrite orb_true_r. reflexivity.
+  - intros H1 H2 H3. destruct (Z.eqb_spec hdr 0); [contradiction|].
+    destruct (Z.eqb_spec mdp 0); [contradiction|]. destruct n; [contradiction|]. reflexivity.
 Qed.
